@@ -389,6 +389,11 @@ def extra(repo, reg, tier, seed):
     else:
         items.append(Item(name, "bounded-ok", "finite-enumeration(CPython)", _t.time() - t0, where=fi.where(),
                           detail=detail, mode="bounded", func=fi.qualname))
+    w = _aliasing_scenarios()
+    items.append(Item("C02/FortranFile/buffers_not_shared", "refuted" if w else "bounded-ok", "native-run(bounded)", 0.0,
+                      mode="bounded", func=f"{PARSER}.FortranFile.apply_change", witness=w, confirmed=True if w else None,
+                      detail="bounded: edit/revert and twin-document histories; the proofs model lists by value, so "
+                             "sharing of the line list between calls or documents is checked natively"))
     # the axioms the proofs use must hold of the native spec function too (consistency of the axiomatisation)
     ok = True
     for ln in range(7):
@@ -403,6 +408,40 @@ def extra(repo, reg, tier, seed):
                       detail="axioms lines.* evaluated on the native spec function, strings up to length 6",
                       mode="bounded"))
     return items
+
+
+def _aliasing_scenarios():
+    """Edit sequences in which a shared (aliased or cached) line list would show: a whole-document change, a
+    one-line edit, then the same whole text again; and two documents holding identical text."""
+    from fortls.parsers.internal.parser import FortranFile, splitlines
+    text = "program p\n  integer :: n\n  n = 1\nend program p"
+    a, b = splitlines(text), splitlines(text)
+    if a is b:
+        return {"function": "splitlines", "problem": "two calls with equal text return the same list object",
+                "text": text}
+    edit = {"text": "42", "range": {"start": {"line": 2, "character": 6}, "end": {"line": 2, "character": 7}}}
+    for first in ("full", "disk_like"):
+        f1, f2 = FortranFile(), FortranFile()
+        for f in (f1, f2):
+            if first == "full":
+                f.apply_change({"text": text})
+            else:
+                f.set_contents(splitlines(text))
+        exp1 = native_apply(native_lines(text), edit)
+        f1.apply_change(dict(edit))
+        if list(f2.contents_split) != native_lines(text):
+            return {"function": "FortranFile.apply_change", "problem": "editing one document changed another "
+                    "document that holds identical text", "history": [first, "edit doc1"],
+                    "doc2_expected": native_lines(text), "doc2_observed": list(f2.contents_split)}
+        if list(f1.contents_split) != exp1:
+            return {"function": "FortranFile.apply_change", "history": [first, "edit"], "expected_doc": exp1,
+                    "observed_doc": list(f1.contents_split)}
+        f1.apply_change({"text": text})
+        if list(f1.contents_split) != native_lines(text):
+            return {"function": "FortranFile.apply_change", "problem": "whole-document change back to the original "
+                    "text does not restore it", "history": [first, "one-line edit", "full text again"],
+                    "expected_doc": native_lines(text), "observed_doc": list(f1.contents_split)}
+    return None
 
 
 def search(func, tier, seed, obligation=""):
@@ -433,6 +472,9 @@ def search(func, tier, seed, obligation=""):
                                         "end": {"line": r[2], "character": r[3]}}}
 
     if func.endswith("apply_change") or func.endswith("set_contents") or func.endswith("splitlines"):
+        w = _aliasing_scenarios()
+        if w:
+            return w
         for L in docs:
             for r in changes_for(L):
                 for text in texts:
